@@ -278,6 +278,22 @@ def interleave_case(ctx, kind, build, ev, xs, ext_inputs, rng):
     for lab, j in plan:
         x = xs[j].copy()
         np.random.random(int(rng.integers(1, 4)))      # unrelated use of numpy's global generator in between
+        if rng.random() < 0.2:
+            # a copy taken in the middle of the sequence evaluates like the untouched twin, and taking and
+            # using it leaves the original alone
+            try:
+                cp = obj.copy() if hasattr(obj, 'copy') else copy.deepcopy(obj)
+                jc = int(rng.integers(len(xs)))
+                with np.errstate(all='ignore'):
+                    oc = ev[lab](cp, xs[jc].copy())
+                if not isinstance(ref[(lab, jc)], str):
+                    ctx.spec('C19.copy_evaluates_like_original/' + kind.split('/')[0], same(snap(oc), ref[(lab, jc)]),
+                             dict(inp, at=[lab, jc]), {'copy': snap(oc), 'untouched_twin': ref[(lab, jc)]})
+            except ValueError:
+                pass
+            except Exception as e:  # noqa
+                ctx.spec('C19.copy_evaluates_like_original/' + kind.split('/')[0], False, dict(inp, at=[lab, j]),
+                         {'raised': repr(e)[:200]})
         try:
             with np.errstate(all='ignore'):
                 out = ev[lab](obj, x)
